@@ -64,6 +64,9 @@ var c13Kinds = []string{"init", "try", "ack", "confirm", "update", "block", "pla
 var c13Muts = []string{"cl", "cpcl", "prefix", "delay", "xa"}
 var c13Plants = []string{"v0", "v2", "v1o", "v1u", "vx", "vl", "delay"}
 
+// plants used right before a channel-open probe: biased to the cases the channel-side guard decides
+var c13ChanPlants = []string{"v1o", "v1u", "v1o", "v1u", "v2", "v2", "v0", "vx", "vl"}
+
 const (
 	fO = "ORDER_ORDERED"
 	fU = "ORDER_UNORDERED"
@@ -143,7 +146,7 @@ func genC13(t *rapid.T) c13Case {
 	for a := 0; a < nAtt; a++ {
 		att := c13Attempt{
 			Cl:    rapid.IntRange(0, c.NCl-1).Draw(t, "cl"),
-			IV:    rapid.SampledFrom([]int{0, 1, 2, 3, 4, 5, 0, 2, 3, 4, 6, 7, 8, 9, 10}).Draw(t, "iv"),
+			IV:    rapid.IntRange(0, 5).Draw(t, "iv"), // always a version ibc-go supports; unsupported ones come as "badv" variants
 			Delay: rapid.SampledFrom([]uint64{0, 0, 1, 7, 1_000_000_000_000_000_000}).Draw(t, "delay"),
 			First: rapid.IntRange(0, 1).Draw(t, "first"),
 			Ord:   rapid.IntRange(1, 2).Draw(t, "ord"),
@@ -163,8 +166,8 @@ func genC13(t *rapid.T) c13Case {
 	lists = append(lists, noise)
 	c.Ops = interleave(t, lists)
 	c.Ops = perturb(t, c.Ops, rapid.IntRange(0, 4).Draw(t, "edits"), genC13Op(nAtt, len(c.VLists)))
-	if len(c.Ops) > 30 {
-		c.Ops = c.Ops[:30]
+	if len(c.Ops) > 36 {
+		c.Ops = c.Ops[:36]
 	}
 	return c
 }
@@ -195,6 +198,18 @@ func genC13Skeleton(t *rapid.T, a int, att c13Attempt, nLists int) []c13Op {
 	plant := func(c, l int, kinds []string) {
 		out = append(out, c13Op{K: "plant", C: c, A: a, L: l, H: -1, M: rapid.SampledFrom(kinds).Draw(t, "plantKind"), V: rapid.IntRange(0, nLists-1).Draw(t, "plantV")})
 	}
+	// probe: the counterparty (or this chain's own connection) stores something else than what was
+	// negotiated, one message is tried against it, then the stored value is restored so that the
+	// honest handshake can go on
+	probe := func(c, l int, kinds []string, op c13Op) {
+		plant(c, l, kinds)
+		op.A, op.H, op.V = a, -1, -1
+		out = append(out, op)
+		out = append(out, c13Op{K: "plant", C: c, A: a, L: l, H: -1, M: "undo", V: -1})
+	}
+	if chance(t, 25, "badInit") {
+		out = append(out, c13Op{K: "init", C: x, A: a, H: -1, V: -1, M: "badv", N: rapid.IntRange(0, 2).Draw(t, "badv")})
+	}
 	step(c13Op{K: "init", C: x})
 	ty := 0
 	if chance(t, 30, "crossing") {
@@ -202,27 +217,27 @@ func genC13Skeleton(t *rapid.T, a int, att c13Attempt, nLists int) []c13Op {
 		ty = 1
 	}
 	step(c13Op{K: "try", C: y, R: 0})
-	if chance(t, 30, "ackProbe") { // a counterparty that stored something else than what was negotiated
-		plant(y, ty, []string{"vx", "v1o", "v1u", "vl", "delay", "v2"})
+	if chance(t, 30, "ackProbe") {
+		probe(y, ty, []string{"vx", "v1o", "v1u", "vl", "delay", "v2"}, c13Op{K: "ack", C: x, L: 0, R: ty})
 	}
 	step(c13Op{K: "ack", C: x, L: 0, R: ty})
-	if chance(t, 15, "confirmProbe") {
-		plant(x, 0, []string{"vx", "v1o", "delay", "vl"})
+	if chance(t, 25, "confirmProbe") {
+		probe(x, 0, []string{"vx", "v1o", "delay", "delay", "vl"}, c13Op{K: "confirm", C: y, L: ty})
 	}
 	step(c13Op{K: "confirm", C: y, L: ty})
 	if chance(t, 30, "replayHs") {
 		out = append(out, c13Op{K: "replay", C: rapid.IntRange(0, 1).Draw(t, "rc"), A: a, M: rapid.SampledFrom([]string{"ack", "confirm", "try", ""}).Draw(t, "rk"), N: rapid.IntRange(0, 2).Draw(t, "rn"), H: -1, V: -1})
 	}
-	// channel phase: probe the single-version / ordering guard
-	if chance(t, 80, "chanPhase") {
+	// channel phase: probe the single-version / ordering guard of ChanOpenInit and ChanOpenTry
+	if chance(t, 85, "chanPhase") {
 		if chance(t, 45, "plantX") {
-			plant(x, 0, c13Plants)
+			probe(x, 0, c13ChanPlants, c13Op{K: "chaninit", C: x, L: 0, O: rapid.IntRange(0, 2).Draw(t, "probeInitOrd")})
 		}
-		step(c13Op{K: "chaninit", C: x, L: 0, O: rapid.IntRange(0, 2).Draw(t, "initOrd")})
-		if chance(t, 45, "plantY") {
-			plant(y, ty, c13Plants)
+		step(c13Op{K: "chaninit", C: x, L: 0})
+		if chance(t, 55, "plantY") {
+			probe(y, ty, c13ChanPlants, c13Op{K: "chantry", C: y, L: ty, R: -1})
 		}
-		step(c13Op{K: "chantry", C: y, L: ty, R: -1, O: rapid.SampledFrom([]int{0, 0, 1, 2}).Draw(t, "tryOrd")})
+		step(c13Op{K: "chantry", C: y, L: ty, R: -1, O: rapid.SampledFrom([]int{0, 0, 0, 1, 2}).Draw(t, "tryOrd")})
 	}
 	return out
 }
@@ -240,6 +255,7 @@ type c13World struct {
 	hist    [2]hist[connectiontypes.ConnectionEnd]
 	sent    []sentRec
 	sentVer map[int][]pver // index in sent -> counterparty versions of a MsgConnectionOpenTry
+	saved   map[string]connectiontypes.ConnectionEnd // "chain/id" -> end before the first not-yet-undone plant
 }
 
 func (x *c13World) readConns(c int) connEnds {
@@ -261,7 +277,7 @@ func (x *c13World) chanIDs(c int) []string {
 }
 
 func newC13World(outer *testing.T, ncl, nAtt int) *c13World {
-	x := &c13World{w: sim.NewWorld(outer, 2, nil), ids: make([][2][]string, nAtt), sentVer: map[int][]pver{}}
+	x := &c13World{w: sim.NewWorld(outer, 2, nil), ids: make([][2][]string, nAtt), sentVer: map[int][]pver{}, saved: map[string]connectiontypes.ConnectionEnd{}}
 	w := x.w
 	sim.Guard("client setup", func() {
 		for k := 0; k < ncl; k++ {
@@ -352,6 +368,9 @@ func (x *c13World) build(cs c13Case, op c13Op, st *c13Step) sdk.Msg {
 			if l := x.versionList(cs, op.V, nil); len(l) > 0 {
 				v = l[0]
 			}
+		}
+		if op.M == "badv" { // versions ibc-go does not support
+			v = initVersion(cs, 6+op.N%3)
 		}
 		return connectiontypes.NewMsgConnectionOpenInit(x.clientFor(c, att, op.M == "cl"), x.clientFor(o, att, op.M == "cpcl"), ibcPrefix, v, delay, signer)
 	case "try":
@@ -506,9 +525,29 @@ func (x *c13World) exec(cs c13Case, op c13Op, rec *vx.Case) (c13Step, sim.Snap) 
 			rec.Add("plant_skipped", 1)
 			return st, nil
 		}
-		if op.M == "delay" {
-			end.DelayPeriod++
-		} else {
+		key := fmt.Sprintf("%d/%s", c, id)
+		switch op.M {
+		case "undo":
+			old, had := x.saved[key]
+			if !had {
+				rec.Add("plant_skipped", 1)
+				return st, nil
+			}
+			end.Versions, end.DelayPeriod = old.Versions, old.DelayPeriod
+			delete(x.saved, key)
+		case "delay":
+			if _, had := x.saved[key]; !had {
+				x.saved[key] = end
+			}
+			if end.DelayPeriod != 0 {
+				end.DelayPeriod = 0
+			} else {
+				end.DelayPeriod = 1
+			}
+		default:
+			if _, had := x.saved[key]; !had {
+				x.saved[key] = end
+			}
 			end.Versions = plantedVersions(cs, op)
 		}
 		w.App(c).IBCKeeper.ConnectionKeeper.SetConnection(w.Ctx(c), id, end)
